@@ -32,7 +32,9 @@ func VerifC16_v1simple_main() {
 	vAssert(vSpawnCount() == 2, "C19: NewSimple starts the scheduling goroutine of the wrapped discipline and its own main")
 	vAssert(vAnd(vSpawnedIs(0, "Discipline"), vSpawnedIs(1, "Simple")), "C19: goroutines started by NewSimple")
 	how := vChoose("how", 4)
+	then := vChoose("then", 3) // a second request while the first is still being served: none / Stop / cancel
 	requested := false
+	second := false
 	prioDone := false
 	handlersRun := false
 	var order []string
@@ -50,8 +52,10 @@ func VerifC16_v1simple_main() {
 		vAssert(prioDone, "C16: Simple.main stops the wrapped discipline before it waits for the handlers")
 		handlersRun = true
 		for i := 2; i < vSpawnCount(); i++ {
-			vAssert(vSpawnedIs(i, "handler"), "C19: the remaining goroutines are handlers")
-			vRunSpawned(i)
+			if vSpawnedIs(i, "handler") {
+				vRunSpawned(i)
+			}
+			// any other goroutine the discipline may have started is covered by the leftover obligation below
 		}
 	})
 	vOnAnyBlock(func() {
@@ -69,6 +73,15 @@ func VerifC16_v1simple_main() {
 				vBreakSignal(s.priority.breaker)
 				vRunSpawned(0)
 				prioDone = true
+			}
+			return
+		}
+		if !second && then != 0 {
+			second = true
+			if then == 1 {
+				vBreakSignal(s.breaker)
+			} else {
+				cancel()
 			}
 			return
 		}
@@ -100,7 +113,13 @@ func VerifC16_v1simple_main() {
 	vRunSpawned(1) // Simple.main
 	vRunLeftoverSpawned()
 	vReach("main returned")
-	vAssert(vSpawnCount() == 2+H, "C01/C19: Simple.main starts exactly HandlersQuantity handlers")
+	nh := 0
+	for i := 2; i < vSpawnCount(); i++ {
+		if vSpawnedIs(i, "handler") {
+			nh++
+		}
+	}
+	vAssert(nh == H, "C01/C19: Simple.main starts exactly HandlersQuantity handlers")
 	vAssert(handlersRun, "C07: Simple.main waits for its handlers")
 	vAssert(vWaitCount() == 0, "C16/C19: when Simple.main completes no handler (hence no Handle call) is running")
 	vAssert(running == 0, "C16: no Handle call is running after completion")
